@@ -5,7 +5,9 @@ from hypothesis import strategies as st
 
 from ..oracles import mgh
 
-FORMATS = ["nested_list", "dense", "csr_matrix", "csc_matrix", "coo_matrix", "lil_matrix", "csr_array"]
+FORMATS = ["nested_list", "dense", "csr_matrix", "csc_matrix", "coo_matrix", "lil_matrix", "csr_array",
+           # dense arrays in other memory layouts / element types (a transposed or MATLAB-loaded matrix is Fortran-ordered)
+           "dense_fortran", "dense_strided", "dense_bool", "dense_float", "dense_readonly"]
 
 
 @st.composite
@@ -85,6 +87,19 @@ def adjacency(g, fmt="dense", symmetric=False, dtype=int):
     if fmt == "nested_list":
         return A.tolist()
     if fmt == "dense":
+        return A
+    if fmt == "dense_fortran":
+        return np.asfortranarray(A)
+    if fmt == "dense_strided":
+        big = np.zeros((2 * n + 1, 2 * n + 1), dtype=A.dtype)
+        big[1::2, 1::2] = A
+        return big[1::2, 1::2]
+    if fmt == "dense_bool":
+        return A.astype(bool)
+    if fmt == "dense_float":
+        return A.astype(float)
+    if fmt == "dense_readonly":
+        A.setflags(write=False)
         return A
     if fmt == "csr_array":
         return sps.csr_array(A)
